@@ -17,9 +17,10 @@ func (UseCandidateAttr) AddTo(m *stun.Message) error {
 
 // IsSet returns true if USE-CANDIDATE attribute is set.
 func (UseCandidateAttr) IsSet(m *stun.Message) bool {
-	_, err := m.Get(stun.AttrUseCandidate)
+	v, err := m.Get(stun.AttrUseCandidate)
 
-	return err == nil
+	// USE-CANDIDATE carries no value: anything else is a wrong size.
+	return err == nil && len(v) == 0
 }
 
 // UseCandidate is shorthand for UseCandidateAttr.
